@@ -245,16 +245,14 @@ def check(ctx):
 
 MUTANTS = [
     dict(name='replacement keeps all of \\s', file=F, quick=True,
-         edits=[dict(file=F, old="""def ignore_comments(string):""", new="""def blank_comment(comment):
-    return re.sub(r'\\S', ' ', comment)
-
-
-def ignore_comments(string):"""),
-                dict(file=F, old="""                    offset += 2
-                    chunks.append(' ' * (offset - start_offset))
-                    non_comment_offset = offset""", new="""                    offset += 2
-                    chunks.append(blank_comment(string[start_offset:offset]))
-                    non_comment_offset = offset""")], expect='C14.R2'),
+         old="chunks.append(re.sub(r'[^\\n]',", new="chunks.append(re.sub(r'\\S',", expect='C14.R2'),
+    dict(name='scanner no longer looks at quotation marks', file=F, quick=True,
+         old="""for mo in re.finditer(r'(/\\*|\\*/|--|\\n|")', string)""", new="""for mo in re.finditer(r'(/\\*|\\*/|--|\\n)', string)""", expect='C14.R1'),
+    dict(name='multi-line comment blank-filled again', file=F,
+         old="""                    chunks.append(re.sub(r'[^\\n]',
+                                         ' ',
+                                         string[start_offset:offset]))""",
+         new="""                    chunks.append(' ' * (offset - start_offset))""", expect='C14.R2'),
     dict(name='single-line fill one short', file=F, quick=True,
          old="""                if kind == '--':
                     offset += 2
@@ -272,11 +270,6 @@ def ignore_comments(string):"""),
             e.column,""", expect='C14.R5'),
 ]
 REFACTORS = [
-    dict(name='multi-line comment replaced keeping only new-lines', file=F, quick=True,
-         old="""                    offset += 2
-                    chunks.append(' ' * (offset - start_offset))
-                    non_comment_offset = offset""",
-         new="""                    offset += 2
-                    chunks.append(re.sub(r'[^\\n]', ' ', string[start_offset:offset]))
-                    non_comment_offset = offset"""),
+    dict(name='multi-line replacement also keeps CR', file=F, quick=True,
+         old="chunks.append(re.sub(r'[^\\n]',", new="chunks.append(re.sub(r'[^\\n\\r]',"),
 ]
